@@ -179,6 +179,10 @@ class RetryDriver:
             except BaseException as e:  # noqa: BLE001
                 first = e
             warm_ok = first == "warm" and not warm
+            if self.cfg["form"] in ("empty_tuple", "empty_set"):
+                # nothing is caught: the warm-up's one failure comes straight out, after a single invocation
+                warm_ok = isinstance(first, E1) and warm == ["ok"]
+                warm.clear()
             got = None
             try:
                 if sync:
